@@ -3,7 +3,7 @@ CONSTANTS
   KeyHasStart = TRUE
   ClampLevel = TRUE
   ND = 1
-  OpNames = {"AddHeading", "AddStyledParagraph", "AutoGenerateTOC", "BuildTOCSDT", "GenerateTOC", "RemoveHeading", "Reopen", "SetTOCStyle", "UpdateTOC"}
+  OpNames = {"AddFootnoteToRun", "AddHeading", "AddStyledParagraph", "AutoGenerateTOC", "BuildTOCSDT", "GenerateTOC", "RemoveHeading", "Reopen", "SetTOCStyle", "UpdateTOC"}
   Types = {"bullet", "decimal"}
   Syms = {"dot"}
   NumSyms = {"empty"}
@@ -14,7 +14,7 @@ CONSTANTS
   MLStarts = {1}
   MLLen = 1
   NTexts = {"note a"}
-  Runs = {"para"}
+  Runs = {"heading"}
   Refs = {"bogus"}
   CfgFmts = {"lowerRoman"}
   CfgStarts = {0}
@@ -24,13 +24,14 @@ CONSTANTS
   Styles = {"Heading2", "Title"}
   MLs = {0, 1, 3}
   TSLvls = {0, 1}
+  Files = {FALSE}
   MaxK = 2
   Depth = 0
   MaxItems = 2
-  MaxNotes = 2
+  MaxNotes = 1
   MaxHeads = 2
   MaxTocs = 2
-  MaxAlloc = 3
+  MaxAlloc = 1
 INVARIANTS Inv_C15 Inv_Ids Inv_Idem
 PROPERTIES Act_TOC Act_Notes Act_Frame
 VIEW MCView
